@@ -460,7 +460,7 @@ def simplify(t):
 
 def t_div(a, b):
     if b.is_const() and b.cval() == 0:
-        return Opaque("division-by-zero")
+        return None            # numpy: x / 0 is inf or nan -- modelled as a missing (non-finite) value, which compares False
     return simplify(_t_div(a, b))
 
 
